@@ -51,4 +51,84 @@ theorem C11_submatch_group0 (find : Nat → Option α) (sp : α → Nat × Nat) 
   rw [h] at hm
   exact (std_wellformed find sp w len ok wk (-1)).2 m hm
 
+/-- the span-only view of a capture-returning matcher -/
+def spanFind (find : Nat → Option α) (sp : α → Nat × Nat) : Nat → Option (Nat × Nat) := fun p => (find p).map sp
+
+theorem spanFind_ok {find : Nat → Option α} {sp : α → Nat × Nat} {len : Nat} (ok : FindOK find sp len) :
+    FindOK (spanFind find sp) id len where
+  bounds := by
+    intro pos m h
+    unfold spanFind at h
+    cases hf : find pos with
+    | none => rw [hf] at h; exact nomatch h
+    | some a =>
+      rw [hf] at h
+      have : sp a = m := by simpa using h
+      subst this; exact ok.bounds hf
+  stable := by
+    intro pos m p h h1 h2
+    unfold spanFind at h ⊢
+    cases hf : find pos with
+    | none => rw [hf] at h; exact nomatch h
+    | some a =>
+      rw [hf] at h
+      have : sp a = m := by simpa using h
+      subst this
+      rw [ok.stable hf h1 h2]; rfl
+
+/-- `allMatches` reads nothing of a match but its span: projecting commutes with enumerating -/
+theorem stdAll_map_span (find : Nat → Option α) (sp : α → Nat × Nat) (w : Nat → Nat) (len : Nat) :
+    ∀ (fuel pos i : Nat) (prev : Option Nat) (n : Nat),
+      (stdAll find sp w len fuel pos i prev n).map sp = stdAll (spanFind find sp) id w len fuel pos i prev n := by
+  intro fuel
+  induction fuel with
+  | zero => intro pos i prev n; rfl
+  | succ k ih =>
+    intro pos i prev n
+    simp only [stdAll, spanFind]
+    by_cases hc : i < n ∧ pos ≤ len
+    · simp only [hc, not_true_eq_false, and_self, if_false]
+      cases hf : find pos with
+      | none => rfl
+      | some m =>
+        simp only [Option.map_some, id]
+        by_cases he : (sp m).2 = pos
+        · simp only [he, if_true]
+          by_cases hp : some (sp m).1 = prev
+          · simp only [hp, if_true]; exact ih _ _ _ _
+          · simp only [hp, if_false, List.map_cons]; rw [ih]
+        · simp only [he, if_false, List.map_cons]; rw [ih]
+    · simp only [hc, not_false_eq_true, if_true, List.map_nil]
+
+/-- FindAllSubmatch(-1) restricted to group 0 IS FindAll(-1) of the span-only matcher (the full statement) -/
+theorem C11_submatch_group0_is_findall (find : Nat → Option α) (sp : α → Nat × Nat) (w : Nat → Nat) (len : Nat)
+    (ok : FindOK find sp len) (wk : WidthOK w len) (n : Int) (hn : n ≠ 0) :
+    (findAllB find sp (nextOf w) len (if n ≤ 0 then none else some n.toNat)).map sp
+      = findAllA false (spanFind find sp) id (nextOf w) len (if n ≤ 0 then none else some n.toNat) := by
+  rw [loopB_eq_std find sp w len ok wk n hn, loopA_eq_std (spanFind find sp) id w len (spanFind_ok ok) wk n hn]
+  unfold stdFindAll
+  exact stdAll_map_span find sp w len _ _ _ _ _
+
+/-- the first element of FindAll(-1) is FindIndex (and FindAll is empty exactly when FindIndex is nil) -/
+theorem C11_first_is_find (find : Nat → Option α) (sp : α → Nat × Nat) (w : Nat → Nat) (len : Nat)
+    (ok : FindOK find sp len) (wk : WidthOK w len) :
+    (findAllA false find sp (nextOf w) len none).head? = find 0 := by
+  have h2 := loopA_eq_std find sp w len ok wk (-1) (by decide)
+  simp only [show ((-1 : Int) ≤ 0) = True from by decide, if_true] at h2
+  rw [h2]
+  unfold stdFindAll
+  have h : 2 * (len + 2) = (2 * len + 3) + 1 := by omega
+  simp only [h, stdAll]
+  have hc : (0 < (if (-1 : Int) < 0 then len + 1 else (-1 : Int).toNat)) ∧ 0 ≤ len := by
+    simp
+  simp only [hc, not_true_eq_false, and_self, if_false]
+  cases hf : find 0 with
+  | none => rfl
+  | some m =>
+    simp only
+    by_cases he : (sp m).2 = 0
+    · simp only [he, if_true]
+      rw [if_neg (by simp)]; rfl
+    · simp only [he, if_false]; rfl
+
 end Cx.C11
